@@ -22,7 +22,7 @@
      linear a b x                      a.x + b *)
 From Coq Require Import List ZArith Bool Arith Lia Reals Lra.
 Import ListNotations.
-From PP Require Import Model.C12 Proofs.C12 Proofs.C12_transfer.
+From PP Require Import Model.C12 Proofs.C12 Proofs.C12_transfer Proofs.C12_vs Proofs.C12_periodic.
 
 (* What Tpfa.discretize returns (real instance). *)
 Theorem C12_discretize :
@@ -67,6 +67,23 @@ Theorem C12_periodic_pair :
      forall j : nat, (IZR sl * entry (rflux I) l j + IZR sr * entry (rflux I) r j = 0)%R).
 Proof. exact periodic_pair_theorem. Qed.
 Print Assumptions C12_periodic_pair.
+
+(* Symmetry with the STORED divergence on periodic grids: if every row face is either a plain
+   face (all its entries are stored ones) or a member of exactly one periodic pair with unit
+   signs, then cell_faces^T * flux is symmetric. *)
+Theorem C12_periodic_symmetric :
+  forall (I : input R) (plain : list nat) (pairs : list (nat * nat)),
+    NoDup (plain ++ map fst pairs ++ map snd pairs) ->
+    (forall e : inc, In e (cf I) -> In (tf e) (plain ++ map fst pairs ++ map snd pairs)) ->
+    (forall f : nat, In f plain -> plain_face I f) ->
+    (forall p : nat * nat, In p pairs ->
+       fst p <> snd p /\
+       exists (cl cr : nat) (sl sr : Z),
+         periodic_pair I (fst p) (snd p) cl cr sl sr /\
+         (sl = 1%Z \/ sl = (-1)%Z) /\ (sr = 1%Z \/ sr = (-1)%Z)) ->
+    forall i j : nat, sdivflux I i j = sdivflux I j i.
+Proof. exact periodic_symmetric. Qed.
+Print Assumptions C12_periodic_symmetric.
 
 (* Constant pressure, Dirichlet data equal to it, zero Neumann data: zero flux on every
    interior and every boundary face. *)
@@ -164,6 +181,52 @@ Theorem C12_korth_checker :
 Proof. exact korth_transfer. Qed.
 Print Assumptions C12_korth_checker.
 
+(* The executed rational instance and the real instance of the model compute the same
+   matrices: reading every rational of the input and of the output as a real (Q2R) commutes
+   with the whole discretisation, division by zero included (both are total with x/0 = 0).
+   Hence what the tie compares with the implementation is the object of the theorems above. *)
+Theorem C12_transfer :
+  forall I : input QArith_base.Q,
+    let '(a, b, c, d) := qdiscretize I in
+    rdiscretize (in2r I) = (c2r a, c2r b, c2r c, c2r d).
+Proof. exact discretize_transfer. Qed.
+Print Assumptions C12_transfer.
+
+(* Vector source (gravity): for a constant vector g and the hydrostatic pressure
+   p = g.x + b (first n = vector_source_dim components) the pressure flux and the
+   vector-source flux cancel on every interior, Dirichlet and Neumann face — on any grid,
+   for any permeability. *)
+Theorem C12_hydrostatic_interior :
+  forall (I : input R) (n : nat) (g gv : nat -> R),
+    (forall c k : nat, (k < n)%nat -> gv (c * n + k)%nat = g k) ->
+    forall (b : R) (f c1 c2 : nat) (s : Z) (bv : nat -> R),
+      interior I f c1 c2 s ->
+      (face_flux I (fun c : nat => hydro n g b (ccen I c)) bv f
+       + row_apply (rvector_source I n) gv f = 0)%R.
+Proof. exact hydrostatic_interior. Qed.
+Print Assumptions C12_hydrostatic_interior.
+
+Theorem C12_hydrostatic_dirichlet :
+  forall (I : input R) (n : nat) (g gv : nat -> R),
+    (forall c k : nat, (k < n)%nat -> gv (c * n + k)%nat = g k) ->
+    forall (b : R) (f c : nat) (s : Z) (bv : nat -> R),
+      boundary I f c s -> neu' R I f = false -> dir' R I f = true ->
+      bv f = hydro n g b (fcen I f) ->
+      (face_flux I (fun c0 : nat => hydro n g b (ccen I c0)) bv f
+       + row_apply (rvector_source I n) gv f = 0)%R.
+Proof. exact hydrostatic_dirichlet. Qed.
+Print Assumptions C12_hydrostatic_dirichlet.
+
+Theorem C12_hydrostatic_neumann :
+  forall (I : input R) (n : nat) (g gv : nat -> R),
+    (forall c k : nat, (k < n)%nat -> gv (c * n + k)%nat = g k) ->
+    forall (b : R) (f c : nat) (s : Z) (bv : nat -> R),
+      boundary I f c s -> neu' R I f = true -> bv f = 0%R ->
+      (face_flux I (fun c0 : nat => hydro n g b (ccen I c0)) bv f
+       + row_apply (rvector_source I n) gv f = 0)%R.
+Proof. exact hydrostatic_neumann. Qed.
+Print Assumptions C12_hydrostatic_neumann.
+
 (* ------------------------------------------------------------------------------------ *)
 (* Non-vacuity: the unit-spaced 1-D grid with two cells, K = 2 I; face 0 Dirichlet, face 1
    interior, face 2 Neumann.  All hypotheses used above hold for it. *)
@@ -230,3 +293,41 @@ Proof.
   split; [vm_compute; reflexivity|].
   split; repeat split; cbn; intuition discriminate.
 Qed.
+
+(* hypotheses of the hydrostatic theorems: a constant vector field in the cell-wise layout *)
+Example C12_nonvacuous_vector_source :
+  forall c k : nat, (k < 3)%nat ->
+    (fun i : nat => INR (i mod 3)) (c * 3 + k)%nat = (fun k : nat => INR k) k.
+Proof.
+  intros c k Hk. cbv beta. f_equal.
+  rewrite Nat.add_comm, Nat.mod_add by lia. apply Nat.mod_small. exact Hk.
+Qed.
+
+(* the periodic example satisfies the structure hypothesis of C12_periodic_symmetric *)
+Example C12_nonvacuous_periodic_symmetric :
+  NoDup ([1] ++ map fst [(0, 2)] ++ map snd [(0, 2)])%nat /\
+  (forall e : inc, In e (cf exp) -> In (tf e) ([1] ++ map fst [(0, 2)] ++ map snd [(0, 2)])%nat) /\
+  plain_face exp 1 /\ periodic_pair exp 0 2 0 1 (-1) 1.
+Proof.
+  split; [cbn; repeat constructor; cbn; intuition discriminate|].
+  split.
+  { intros e He. cbn in He. destruct He as [<-|[<-|[<-|[<-|[<-|[<-|[]]]]]]]; cbn; tauto. }
+  split.
+  { intros e He. cbn in He. destruct He as [<-|[<-|[]]]; reflexivity. }
+  repeat split; cbn; intuition discriminate.
+Qed.
+
+(* the transfer theorem applied: a rational instance (same grid as [ex], dyadic data) *)
+From Coq Require Import QArith.
+Example C12_nonvacuous_transfer :
+  let I := {| dim := 1; nf := 3; nc := 2;
+              cf := [geo 0 0 (-1)%Z; geo 1 0 1%Z; geo 1 1 (-1)%Z; geo 2 1 1%Z]%nat;
+              normal := fun _ => (1, 0, 0)%Q;
+              fcen := fun f => (inject_Z (Z.of_nat f), 0, 0)%Q;
+              ccen := fun c => (inject_Z (Z.of_nat c) + (1 # 2), 0, 0)%Q;
+              perm := fun _ => ((2, 0, 0), (0, 2, 0), (0, 0, 2))%Q;
+              is_dir := fun f => (f =? 0)%nat; is_neu := fun f => (f =? 2)%nat;
+              is_int := fun _ => false; bnd := [0; 2]%nat |} in
+  fst (fst (fst (qdiscretize I))) =
+    [(0%nat, 0%nat, -4); (1%nat, 0%nat, 2); (1%nat, 1%nat, -2); (2%nat, 1%nat, 0)]%Q.
+Proof. vm_compute. reflexivity. Qed.
